@@ -74,7 +74,12 @@ type world struct {
 func realmCfg(uri string) *router.RealmConfig {
 	// The Authorizer allows everything; with one configured the session handler asks the peer
 	// IsLocal() for every message, which is where a "slow" peer parks it (shutdown.go).
-	return &router.RealmConfig{URI: wamp.URI(uri), AnonymousAuth: true, AllowDisclose: true, EnableMetaKill: true, Authorizer: allowAll{}}
+	// Two of the topics the histories use keep event history: such a subscription outlives its
+	// subscribers, so a session that has left must really be out of its subscriber set when a
+	// publication still in flight reaches the broker during a shutdown.
+	return &router.RealmConfig{URI: wamp.URI(uri), AnonymousAuth: true, AllowDisclose: true, EnableMetaKill: true, Authorizer: allowAll{},
+		TopicEventHistoryConfigs: []*router.TopicEventHistoryConfig{
+			{Topic: "w1.t", MatchPolicy: "exact", Limit: 4}, {Topic: "t.a", MatchPolicy: "exact", Limit: 4}}}
 }
 
 type allowAll struct{}
